@@ -23,7 +23,9 @@ LEVEL_NOTE = ("Theorems are about Exec/RuntimeMachine.v, where execute_fields_se
 RULE = ("mutations with 1-4 top-level fields (deferred or immediate) with nested deferred sub-fields / lists, a "
         "ResolverError moved over every top-level position, RuntimeErrors; all 4 configurations, all completion "
         "orders (exhaustive within the tier's bound); three schema layouts (distinct roots; one ObjectType as query "
-        "and mutation root; mutation root also the nested object type); root (and some nested) selections written "
+        "and mutation root; mutation root also the nested object type); resolver attachment per field: explicit function / "
+        "coroutine, or default resolver over a dict value, an attribute, a method returning a plain or a deferred value, "
+        "with and without a middleware; root (and some nested) selections written "
         "with inline fragments / fragment spreads that select earlier response keys again (expected order = first "
         "occurrence, computed from the document independently of collect_fields); plus queries of the same shapes (overlap must be possible); "
         "non-trivial = a deferred configuration of a mutation with >= 2 top-level fields; distinct = distinct "
@@ -54,6 +56,14 @@ def _corpus_programs():
     ps.append(dict(ps[1], render=[["f", 0], ["f", 1], ["inline", True, [["f", 2], ["f", 0], ["f", 3], ["f", 1]]]],
                    layout="shared"))
     ps.append(dict(ps[2], render=[["inline", False, [["f", 0]]], ["spread", "A", [["f", 2], ["f", 0]]]]))
+    # resolver attachment: a top-level field without explicit resolver whose root-object *method*
+    # returns a deferred value, with a custom deferred sub-field; attributes / dict values
+    ps.append({"op": "mutation", "fields": [F(0, "D", ["obj", [F(1, "C", I(1)), F(2, "A", I(2))]]), F(3, "C", I(3)),
+                                            F(4, "D", I(4), lv=1)]})
+    ps.append({"op": "mutation", "fields": [F(0, "V", ["obj", [F(1, "V", I(1)), F(2, "C", I(2))]]), F(3, "V", ["err"], sh="i"),
+                                            F(4, "P", I(4))], "mw": True})
+    ps.append({"op": "mutation", "fields": [F(0, "D", ["obj", [F(1, "D", ["obj", [F(2, "C", I(2))]])]]), F(3, "S", I(3))],
+               "layout": "shared"})
     return ps
 
 
@@ -86,14 +96,14 @@ def generate(rng, tier):
         if i % (3 if quick else 1) == 0:
             p["layout"] = LAYOUT_CYCLE[i % 4]
             cases.extend(c08._cases_for(p, limit, samples, rng.randrange(1 << 30), configs=("poole",)))
-    n_mut, n_q = (40, 6) if quick else (320, 40)
+    n_mut, n_q = (40, 6) if quick else (240, 30)
     for j in range(n_mut + n_q):
         op = "mutation" if j < n_mut else "query"
         ntop = 1 + j % 4
         hi = (8 if quick else 10) if op == "mutation" else (5 if quick else 6)
         p = gen_sched.gen_program(rng, op, 1 if ntop == 1 else min(hi, ntop + 1), hi,
                                   p_exn=0.04 if j % 5 == 0 else 0.0, p_err=0.1,
-                                  modes=("S", "P", "C", "C", "C"), top=(ntop, ntop), depth=2)
+                                  modes=("S", "P", "C", "C", "C", "D", "D", "A", "V"), top=(ntop, ntop), depth=2)
         p["layout"] = LAYOUT_CYCLE[(j // 4) % 4]
         if ntop >= 2 and j % 2 == 1:
             p = gen_sched.add_render(rng, p)
